@@ -211,6 +211,73 @@ func structuralMutants(seed p7seed, attacker *keys.Key, attackerCertRaw, attacke
 			emit("spc-digest-rewritten", "", t)
 		}
 	}
+	// --- algorithm identifiers named elsewhere than the signature was made with
+	{
+		algs := []struct {
+			name string
+			oid  []byte
+		}{
+			{"sha1", refder.OID(1, 3, 14, 3, 2, 26)}, {"sha224", refder.OID(2, 16, 840, 1, 101, 3, 4, 2, 4)}, {"sha384", refder.OID(2, 16, 840, 1, 101, 3, 4, 2, 2)},
+			{"sha512", refder.OID(2, 16, 840, 1, 101, 3, 4, 2, 3)}, {"md5", refder.OID(1, 2, 840, 113549, 2, 5)}, {"unknown", refder.OID(1, 3, 6, 1, 4, 1, 99999, 1)},
+			{"rsa-pss", refder.OID(1, 2, 840, 113549, 1, 1, 10)}, {"ecdsa-sha256", refder.OID(1, 2, 840, 10045, 4, 3, 2)}, {"empty", []byte{}}, {"one-byte", []byte{0x2a}},
+		}
+		// where: 0 digestAlgorithms[0], 1 signer digestAlgorithm, 2 signer signature algorithm, 3 the DigestInfo inside an Authenticode content
+		for where := 0; where < 4; where++ {
+			for _, a := range algs {
+				t := base.clone()
+				var alg *refder.Tree
+				switch where {
+				case 0:
+					if len(t.sd.Kids) > 1 && len(t.sd.Kids[1].Kids) > 0 {
+						alg = t.sd.Kids[1].Kids[0]
+					}
+				case 1:
+					if si := t.signers.Kids; len(si) > 0 && len(si[0].Kids) > 2 {
+						alg = si[0].Kids[2]
+					}
+				case 2:
+					if sp := t.signer(0); sp != nil {
+						for k, kid := range sp.si.Kids {
+							if kid == sp.sig && k > 0 {
+								alg = sp.si.Kids[k-1]
+							}
+						}
+					}
+				case 3:
+					if len(t.encap.Kids) > 1 && len(t.encap.Kids[1].Kids) > 0 {
+						c := t.encap.Kids[1].Kids[0]
+						if len(c.Kids) >= 2 && len(c.Kids[1].Kids) >= 2 && c.Kids[1].Kids[0].Tag == 0x30 {
+							alg = c.Kids[1].Kids[0]
+						}
+					}
+				}
+				if alg == nil || len(alg.Kids) == 0 || alg.Kids[0].Tag != 0x06 {
+					continue
+				}
+				alg.Kids[0].Prim = a.oid
+				emit(fmt.Sprintf("algorithm-oid-replaced/%s/%s", []string{"digestAlgorithms", "signer-digest", "signer-signature", "spc-digestinfo"}[where], a.name), "", t)
+				if a.name == "sha384" || a.name == "unknown" {
+					t2 := t.clone()
+					// parameters dropped / NULL added
+					var alg2 *refder.Tree
+					switch where {
+					case 0:
+						alg2 = t2.sd.Kids[1].Kids[0]
+					case 1:
+						alg2 = t2.signers.Kids[0].Kids[2]
+					}
+					if alg2 != nil {
+						if len(alg2.Kids) > 1 {
+							alg2.Kids = alg2.Kids[:1]
+						} else {
+							alg2.Kids = append(alg2.Kids, &refder.Tree{Tag: 0x05})
+						}
+						emit(fmt.Sprintf("algorithm-oid-replaced+params-toggled/%s/%s", []string{"digestAlgorithms", "signer-digest"}[where], a.name), "", t2)
+					}
+				}
+			}
+		}
+	}
 	// --- content type
 	{
 		t := base.clone()
